@@ -283,7 +283,7 @@ def replay(ctx, c):
 def run(ctx):
     q = ctx.tier == "quick"
     try:
-        hyp_run(ctx, "download", case(), lambda c: check(ctx, c), 150 if q else 3000)
+        hyp_run(ctx, "download", case(), lambda c: check(ctx, c), 250 if q else 3000)
     finally:
         if STUB is not None:
             STUB.close()
